@@ -54,3 +54,17 @@ func TestC10NamedTypes(t *testing.T) {
 		sec.Case(len(kinds) >= 2, strings.Join(names, ","), fmt.Sprintf("types=%d", len(kinds)))
 	})
 }
+
+// TestC10TagValues: public-tagged values of every shape, next to keys that are related as strings, are preserved.
+func TestC10TagValues(t *testing.T) {
+	sec := stats.Sec("tag_values", "rapid: a Taggable struct whose pointer tags name 3-5 keys of one map that are related as strings (prefixes of one another, equal up to case or surrounding white space, dotted), in drawn order; public-tagged values include the empty string, a blank, []string, []interface{} and nested maps; oracle = every public-classified value is forwarded deep-equal to the input, the map keeps its keys, the input is untouched; non-trivial = >= 2 related tagged keys; distinct = case descriptor")
+	rapid.Check(t, func(t *rapid.T) {
+		fs, desc, nt := encrun.TagValueCase(t)
+		for _, fd := range fs {
+			if fd.Prop == "C10" && !stats.Known(fd.Sig) {
+				t.Fatalf("VIOLATION C10: %s [sig %s]\ncase: %s", fd.Msg, fd.Sig, desc)
+			}
+		}
+		sec.Case(nt, desc)
+	})
+}
